@@ -81,6 +81,10 @@ pub fn install_gate_controller() {
             let mut ft = F_THREADS.lock().unwrap();
             if actor == F {
                 ft.insert(tid);
+                // per-table steps of other tables (catalogue tables, u) are not decision points
+                if !detail.is_empty() && detail != "t" {
+                    return;
+                }
                 F
             } else if actor == Q && ft.contains(&tid) {
                 F
